@@ -1,5 +1,5 @@
 CONSTANTS P = 67  A = 0  B = 2  Gx = 2  Gy = 12  N = 73
-          SignZ = {1, 2, 72, 73, 74}  VerZ = {1, 73, 74}  VerQ = {2, 3, 4, 10, 20, 30, 40, 50, 60, 71, 72, 73}  RecZ = {1, 73}
+          SignZ = {1, 2, 72, 73, 74}  VerZ = {1, 73, 74}  VerQ = {2, 3, 30, 50, 72, 73}  RecZ = {1, 73}
 SPECIFICATION Spec
 INVARIANT ReturnedVerifies
 CHECK_DEADLOCK FALSE
